@@ -5,7 +5,10 @@ package main
 // under the package prefix that may contain a call of the named function
 // (static callee) or a call of a function VALUE of the named type.  The scan is
 // regenerated from /repo's current SSA on every run; an unlisted site is a
-// violation ("unverified call site"): the symbolic check did not execute it.
+// violation ("unverified call site") for `callsites` rules (the site bypasses
+// the mechanism the property relies on) and a coverage gap (INCONCLUSIVE) for
+// `callsites-gap` rules (the site may be fine, but the symbolic check did not
+// execute it).
 
 import (
 	"fmt"
@@ -35,8 +38,13 @@ func rootFunc(f *ssa.Function) *ssa.Function {
 	return f
 }
 
-func runScans(h *Harness, cfg *Config) (results []scanResult, violations []string) {
+func runScans(h *Harness, cfg *Config) (results []scanResult, violations, gaps []string) {
 	for _, raw := range h.CallSites {
+		gap := false
+		if len(raw) > 0 && raw[0] == "?gap" {
+			gap = true
+			raw = raw[1:]
+		}
 		if len(raw) < 3 {
 			continue
 		}
@@ -127,11 +135,15 @@ func runScans(h *Harness, cfg *Config) (results []scanResult, violations []strin
 		sort.Strings(res.Sites)
 		sort.Strings(res.Foreign)
 		for _, s := range res.Foreign {
-			violations = append(violations, fmt.Sprintf("unverified call site of %s: %s", rule.target, s))
+			if gap {
+				gaps = append(gaps, fmt.Sprintf("call site of %s not exercised by the harness: %s", rule.target, s))
+			} else {
+				violations = append(violations, fmt.Sprintf("unverified call site of %s: %s", rule.target, s))
+			}
 		}
 		results = append(results, res)
 	}
-	return results, violations
+	return results, violations, gaps
 }
 
 func ptrTo(t types.Type) types.Type { return types.NewPointer(t) }
